@@ -413,7 +413,7 @@ class Runner:
         try:
             for packed, stop in case["lives"]:
                 if self.lifetime(orc, spec, unpack(packed), st, stop) is None:
-                    break
+                    return
             self.lifetime(orc, spec, P(2), st, ["clean"])
         finally:
             shutil.rmtree(d, ignore_errors=True)
@@ -634,7 +634,7 @@ def run_shard(shard, rep, only=None):
                     rep.monitor("crash_points")
                     rep.case(cp_sig(spec, cp, info, cp2), nontrivial=True)
         r = random.Random(shard["seed"])
-        for i in range({"quick": 60, "thorough": 6000}[tier]):
+        for i in range({"quick": 60, "thorough": 4000}[tier]):
             case = gen_chain(r, i)
             runner.run_chain(case)
             rep.case(["chain", [[s[0], len(p)] for p, s in case["lives"]], case["spec"]["chunk"], bool(case["spec"]["start"])], nontrivial=True)
